@@ -135,6 +135,61 @@ def check(case, ctx):
             ctx.label('hashseed-determinism-checked')
 
 
+# ------------------------------------------------------------------ the built-in precedence of non-empty over directly empty alternatives
+# start: "(" r ")" where r has a directly empty alternative and one or two non-empty alternatives that can match the empty span as well
+# (visible nodes n / m with priorities): wherever r spans nothing, the tree must still show a non-empty alternative -- whatever the
+# priorities, the priority mode and the lexer.
+E_FORMS = [('r: | n', ['n']), ('r: n |', ['n']), ('r: n?', ['n']), ('r: [n]', ['n']), ('r: | n | m', ['n', 'm']), ('r: n | m |', ['n', 'm']),
+           ('r: | n x', ['n']), ('r: (n | )', ['n'])]
+E_BODIES = ['A*', 'k*', 'A? A?', '[A]', 'k?']
+E_TEXTS = ['()', '( )', '(a)', '( a a )', '(aa)']
+
+
+def empty_cases(shard, nshards):
+    i = 0
+    for form, vis in E_FORMS:
+        for body in E_BODIES:
+            for pn in (None, -3, -1, 1, 2):
+                for pm in ((None, -2, 3) if 'm' in vis else (None,)):
+                    for pr in (None, -1, 2):
+                        for mode in ('normal', 'invert', None):
+                            i += 1
+                            if i % nshards == shard:
+                                yield {'form': form, 'visible': vis, 'body': body, 'pn': pn, 'pm': pm, 'pr': pr, 'priority': mode}
+
+
+def check_empty(case, ctx):
+    pr = lambda v: '' if v is None else '.%d' % v
+    form = case['form']
+    head, alts = form.split(':', 1)
+    g = 'start: "(" r ")"\n%s%s:%s\n' % (head, pr(case['pr']), alts)
+    g += 'n%s: %s\n' % (pr(case['pn']), case['body'])
+    if 'm' in case['visible']: g += 'm%s: %s A?\n' % (pr(case['pm']), case['body'])
+    if ' x' in form: g += 'x: A?\n'
+    if 'k' in case['body']: g += 'k: A\n'
+    g += 'A: "a"\n%ignore " "\n'
+    for lx in ('basic', 'dynamic', 'dynamic_complete'):
+        try:
+            p = Lark(g, parser='earley', lexer=lx, priority=case['priority'])
+        except GrammarError as e:
+            if 'Rules defined twice' in str(e) or 'collision' in str(e).lower():
+                ctx.discard('GrammarError: colliding alternatives'); return
+            raise Violation('construction raised GrammarError', grammar=g, error=str(e)[:300])
+        for w in E_TEXTS:
+            try:
+                t = p.parse(w)
+            except UnexpectedInput:
+                continue        # not every text is a sentence for every body; acceptance is C01's business
+            r = t.children[0]
+            kids = [c for c in r.children if c is not None]
+            if not kids or not any(getattr(c, 'data', None) in case['visible'] for c in kids):
+                raise Violation('directly empty alternative chosen although a non-empty alternative of the rule matches the same span', grammar=g, text=w,
+                                lexer=lx, priority=case['priority'], got=str(t)[:300])
+        ctx.label('empty-precedence:held')
+    if case['pn'] is not None or case['pm'] is not None:
+        ctx.nontrivial(['empty', g, case['priority']], sample={'grammar': g, 'priority': case['priority'], 'texts': E_TEXTS})
+
+
 def _j(x):
     import json
     return json.loads(json.dumps(x))
@@ -150,4 +205,5 @@ def phases(tier):
     return [Phase('tok', 'hypothesis', strategy=strat(O_BASIC, 'tok', 3, 8, False), max_examples=12000 * k),
             Phase('tok-nonnull', 'hypothesis', strategy=strat(O_NONNULL, 'tok', 3, 8, False), max_examples=16000 * k),
             Phase('ovl-termprio', 'hypothesis', strategy=strat(O_OVL, 'ovl', 3, 8, False), max_examples=12000 * k),
+            Phase('empty-alternative-precedence', 'enumerate', cases=empty_cases, exhaustive=True, check=check_empty),
             Phase('hashseeds', 'hypothesis', strategy=strat(O_NONNULL, 'tok', 2, 7, True), max_examples=1600 * k)]
